@@ -588,6 +588,7 @@ func registerBuiltinSpecs(e *Engine) {
 	e.Specs["isNotExist"] = uf("isNotExist", smt.Bool, false)
 	e.Specs["isDerivedFile"] = uf("isDerivedFile", smt.Bool, false)
 	e.Specs["joinPath"] = uf("joinPath", smt.V, false)
+	e.Specs["strJoin"] = uf("strJoin", smt.V, false)
 	e.Specs["mayRename"] = uf("mayRename", smt.Bool, false)
 	// overwrite(c, o, d): content c after writing d at offset o
 	e.Specs["overwrite"] = func(e *Engine, env *SpecEnv, args []spec.Expr) (Val, error) {
